@@ -592,6 +592,10 @@ func (s *Session) arrRead(st *State, a *Arr, idx string) Val {
 		for i, l := range c.Leaves {
 			leaves[i] = fmt.Sprintf("(select %s %s)", l, idx)
 		}
+		// an element of a byte slice is a byte (range fact of the element type; sound for every Go value)
+		if b, ok := a.Elem.Underlying().(*types.Basic); ok && b.Kind() == types.Uint8 && len(leaves) == 1 {
+			st.assume(fmt.Sprintf("(and (<= 0 %s) (<= %s 255))", leaves[0], leaves[0]))
+		}
 		k := 0
 		return s.unflatten(a.Elem, leaves, &k)
 	}
